@@ -14,7 +14,8 @@ ASSUMPTIONS = [
     "(0001/0011/0111/1111 with `last`), unused byte lanes of the last word carry arbitrary data",
     "`generate` is either held until `done` with a stable header (PacketTransmitter) or a one-cycle strobe after "
     "which the header inputs change (documented as latched); the header's crc16/crc5 inputs are arbitrary",
-    "a DATA header's data-length field equals the number of payload bytes supplied",
+    "a DATA header's data-length field equals the number of payload bytes supplied; payloads are 0..1024 bytes "
+    "(DataPacketReceiver.MAX_PACKET_SIZE, the largest SuperSpeed data packet payload)",
     "header types are the four defined ones (LMP, TP, DATA, ITP); a zero-length data packet is requested by a "
     "DATA header with no valid payload word",
     "symbols after EPF that pad the final word are not judged; the DataPacketReceiver used for the round trip is "
@@ -23,6 +24,36 @@ ASSUMPTIONS = [
 
 TYPES = [R.TYPE_LMP, R.TYPE_TP, R.TYPE_DATA, R.TYPE_ITP]
 MAXLEN = 64
+MAXPAYLOAD = 1024          # largest SuperSpeed data packet payload (USB 3.2 §8.6; DataPacketReceiver.MAX_PACKET_SIZE)
+# lengths around every power of two up to the maximum, and the last few before the maximum (each trailing-byte count)
+LARGE_EDGES = sorted({v for k in range(7, 11) for v in ((1 << k) - 3, (1 << k) - 2, (1 << k) - 1, 1 << k, (1 << k) + 1)
+                      if MAXLEN < v <= MAXPAYLOAD})
+
+
+def synth_payload(n, seed, fill):
+    """Large payloads are described compactly (plen, pseed, pfill) and expanded here, deterministically:
+    fill 0 = pseudo-random bytes (LCG), 1 = all 0x00, 2 = all 0xFF, 3 = incrementing from seed."""
+    if fill == 1:
+        return [0] * n
+    if fill == 2:
+        return [0xFF] * n
+    if fill == 3:
+        return [(seed + i) & 0xFF for i in range(n)]
+    out = []
+    x = (seed ^ 0x5DEECE66D) & 0xFFFFFFFF
+    for _ in range(n):
+        x = (x * 1664525 + 1013904223) & 0xFFFFFFFF
+        out.append(x >> 24)
+    return out
+
+
+def expand_pkt(p):
+    """Case dictionaries keep `payload` as a byte list (old replays) or, for large packets, plen/pseed/pfill."""
+    if p.get("plen") is None:
+        return p
+    q = dict(p)
+    q["payload"] = synth_payload(p["plen"], p.get("pseed", 0), p.get("pfill", 0)) if p["type"] == R.TYPE_DATA else []
+    return q
 
 
 class _Loop(Elaboratable):
@@ -185,7 +216,8 @@ class TxSub(Sub):
     shrink_budget = 600
     rule = ("sequences of 1..5 packets: header (random dw0-dw2, defined type, seq, reserved/hub-depth/delayed/"
             "deferred, arbitrary crc inputs), DATA headers with payload 0..64 bytes (every length mod 4, junk in "
-            "unused lanes), delayed flag, held or strobed generate, 0..3 idle cycles between packets, cyclic PHY ready "
+            "unused lanes) and, for one DATA packet in ten, 65..1024 bytes (the maximum packet size; lengths around "
+            "every power of two and the last few below the maximum favoured), delayed flag, held or strobed generate, 0..3 idle cycles between packets, cyclic PHY ready "
             "pattern. Oracle: accepted wire symbols == independent reference encoding (framing, CRC-16, CRC-5, CRC-32 "
             "right after the last byte, END END END EPF, or EDB abort when delayed); source held while stalled; done "
             "on the last word; each payload word consumed exactly once; round trip through RawHeaderPacketReceiver "
@@ -218,21 +250,31 @@ class TxSub(Sub):
         def pkt(draw):
             typ = draw(weighted([(R.TYPE_DATA, 6), (R.TYPE_TP, 2), (R.TYPE_LMP, 1), (R.TYPE_ITP, 1)]))
             L = draw(length) if typ == R.TYPE_DATA else 0
+            big = None
+            if typ == R.TYPE_DATA and draw(weighted([(0, 9), (1, 1)])):
+                # large payloads up to the maximum packet size, described compactly (expanded in run())
+                big = dict(plen=draw(st.one_of(st.sampled_from(LARGE_EDGES + [MAXPAYLOAD]),
+                                               st.integers(MAXLEN + 1, MAXPAYLOAD))),
+                           pseed=draw(bits(32)), pfill=draw(weighted([(0, 5), (1, 1), (2, 1), (3, 1)])))
+                L = 0
             flags = draw(bits(8))
             if draw(weighted([(0, 4), (1, 1)])) == 0:
                 flags &= ~0x40          # most packets are not delayed
-            return dict(type=typ, dw0=draw(bits(32)), dw1=draw(bits(32)), dw2=draw(bits(32)), seq=draw(bits(3)),
-                        flags=flags, crcs=draw(bits(21)),
-                        payload=draw(st.lists(st.one_of(st.just(0), st.just(0xFF), bits(8)), min_size=L, max_size=L)),
-                        junk=draw(bits(32)), hold=draw(st.integers(0, 1)), lead=draw(st.integers(1, 3)),
-                        gap=draw(weighted([(0, 4), (1, 2), (3, 1)])), pending=draw(weighted([(0, 3), (1, 1)])),
-                        garbage=draw(bits(32)))
+            d = dict(type=typ, dw0=draw(bits(32)), dw1=draw(bits(32)), dw2=draw(bits(32)), seq=draw(bits(3)),
+                     flags=flags, crcs=draw(bits(21)),
+                     payload=draw(st.lists(st.one_of(st.just(0), st.just(0xFF), bits(8)), min_size=L, max_size=L)),
+                     junk=draw(bits(32)), hold=draw(st.integers(0, 1)), lead=draw(st.integers(1, 3)),
+                     gap=draw(weighted([(0, 4), (1, 2), (3, 1)])), pending=draw(weighted([(0, 3), (1, 1)])),
+                     garbage=draw(bits(32)))
+            if big:
+                d.update(big)
+            return d
         return st.fixed_dictionaries(dict(
             pkts=long_lists(pkt(), min_size=1, max_size=5, average=3),
             ready=st.lists(weighted([(1, 3), (0, 2)]), min_size=3, max_size=24)))
 
     def run(self, case):
-        pkts = case["pkts"]
+        pkts = [expand_pkt(p) for p in case["pkts"]]
         ready = list(case["ready"])
         if not any(ready):
             ready.append(1)
@@ -286,8 +328,10 @@ class TxSub(Sub):
                         part = name
                         break
                     off += n
+                shown = mine if nwords <= 40 else mine[max(0, j // 4 - 2):j // 4 + 3]
                 return fail(f"{desc}: wire symbol {j} ({part}) is {got[j]} expected {syms[j]}; words "
-                            f"{[(hex(d), c) for _, d, c in mine]}", signature="wire-" + part)
+                            f"{'' if nwords <= 40 else 'around it '}{[(hex(d), c) for _, d, c in shown]}",
+                            signature="wire-" + part)
             last_cycle = mine[-1][0]
             first_cycle = mine[0][0]
             if first_cycle <= e["gen"] or e["done"] != last_cycle:
@@ -318,6 +362,13 @@ class TxSub(Sub):
                             if (o.sv >> i) & 1:
                                 got_bytes.append((o.sd >> (8 * i)) & 0xFF)
                     if bytes(got_bytes) != bytes(payload):
+                        if len(payload) > MAXLEN:
+                            j = next((i for i, (a, b) in enumerate(zip(got_bytes, payload)) if a != b),
+                                     min(len(got_bytes), len(payload)))
+                            return fail(f"{desc}: DataPacketReceiver delivered {len(got_bytes)} bytes, expected "
+                                        f"{len(payload)}; first difference at byte {j} (got "
+                                        f"{bytes(got_bytes[j:j + 8]).hex()} expected {bytes(payload[j:j + 8]).hex()})",
+                                        signature="roundtrip-payload")
                         return fail(f"{desc}: DataPacketReceiver delivered {bytes(got_bytes).hex()} expected "
                                     f"{bytes(payload).hex()}", signature="roundtrip-payload")
             hdr_expect.append((h, desc))
@@ -325,6 +376,8 @@ class TxSub(Sub):
             # labels
             if is_data:
                 labels.add("delayed-data" if h["dl"] else ("zlp" if not payload else f"len%4={len(payload) % 4}"))
+                if len(payload) > MAXLEN and not h["dl"]:
+                    labels.add("len=max" if len(payload) == MAXPAYLOAD else "len>64")
                 pkt_stalls = sum(1 for t in range(e["gen"], last_cycle + 1) if trace[t].valid and not used[t])
                 if payload and not h["dl"] and pkt_stalls:
                     nontrivial = True
